@@ -9,19 +9,52 @@ FAMILIES = [
 ]
 RULE = ("mint: real dispensation BeginBlocker on the real keeper/bank, block histories with the counter started 0..6 blocks below the cap "
         "(remainders 0, 1, perBlock-1, random), at the cap, above it, at 0, absent; ecosystem pool blocked (send fails) in half of the runs; "
-        "coins arriving at the module account / pool in between; non-trivial = a block that minted")
+        "coins arriving at the module account / pool in between. rewards: real clp EndBlocker over 1-3 sequential reward periods per schedule "
+        "(lengths 1..12, gaps, allocation 0 / <30 / 1000 / up to 2^100, mod 0..6 and > length, distribute flag, default multiplier 0..2, one pool "
+        "multiplier 0..2.4), four schedules in a row per chain (the accumulator left by one enters the next), 1-3 pools with changing depth incl. 0, "
+        "providers joining/leaving, one provider blocked (its share is burned). restart: full SifchainApp on a persistent DB through "
+        "BeginBlock/EndBlock/Commit, counter started 1..6 blocks below the cap, two adjacent reward periods, application object re-opened from "
+        "the DB after 1/3 of the blocks. dispmsgs: the C11 message histories with the total supply compared across every message. "
+        "non-trivial = a block that created coins / an accepted message")
 TRUSTED_BASE = [
     "Lean 4.33.0 kernel; axioms propext, Classical.choice, Quot.sound (audited per theorem on every run)",
-    "hand-written Lean model of x/dispensation BeginBlocker + mint controller, tied by differential execution against the real keeper",
+    "hand-written Lean models of x/dispensation BeginBlocker + mint controller and of the reward part of x/clp EndBlocker, tied by differential execution against the real keepers / the real app",
+    "the pool split of a block's reward distribution (calcPoolDistribution, sdk.Dec; property C18) is an environment value of the model; only the running clamp of CollectPoolRewardTuples and mint/transfer/burn-remainder are modelled",
+    "the fact translator passes dispconsts, mintcallers (syntactic go/ast: calls recognised by selector name), disphooks",
     "Go harness + line protocol + driver parser",
-    "cosmos-sdk x/bank (modelled: mint, send, blocked recipients), exercised by the correspondence",
+    "cosmos-sdk x/bank (modelled: mint, send, burn, blocked recipients), module.Manager (runs BeginBlock once per entry of SetOrderBeginBlockers), baseapp/IAVL persistence (exercised by the restart family)",
 ]
-ASSUMPTIONS = ["starting counter <= cap for mint_counter (above the cap nothing is minted: mint_nothing_after_cap)",
-               "ecosystem pool address != dispensation module address (mint_held)"]
-UNPROVED = []
+ASSUMPTIONS = [
+    "starting counter <= cap for mint_counter (above the cap nothing is minted: mint_nothing_after_cap)",
+    "ecosystem pool address != dispensation module address (mint_held)",
+    "reward periods inside the envelope of DESIGN section 5 (start <= end < 2^62, mod < 2^62, allocation < 2^128 — enforced by ValidateBasic after F5/F13) "
+    "and pairwise non-overlapping, fixed while they run (no AddRewardPeriod replacing a running period)",
+    "per-block theorem: the accumulator invariant holds at the first block of the history (e.g. empty accumulator, or the history contains the period's first block)",
+    "cosmos x/mint (SDK inflation module, also wired into the app) is outside /repo/x and /repo/app and not covered by cap_const; the envelope excludes a token registry that aliases a foreign voucher to rowan (ibctransfer helper)",
+]
+UNPROVED = [
+    "'every rewarded coin ends up in a pool or a provider's account': not proved here (needs the clp pool/provider model: C01/C18); the model proves net created <= block distribution and the harness observes only the net supply change.",
+    "overlapping reward periods, or a period list replaced while a period runs: the repaired code still carries the accumulator into the other period when the switch does not happen at a RewardPeriodStartBlock (e.g. A=[1..10] mod 4 listed before B=[5..20] mod 1: block 11 pays B's share plus two shares of A). Excluded by the hypothesis periodsDisjoint; not generated; reported as a residual observation, not repaired (a complete repair would store the period id with the accumulator).",
+    "cap_const is a syntactic call-site fact (go/ast): an indirect mint through a new wrapper defined outside x/ and app/, or through reflection, is not seen. The dynamic side (messages_create_nothing + supply check on every dispensation message) covers the dispensation messages only; admin messages of other modules are C08/C10.",
+    "restart: proved as 'the step functions are functions of the stored state' (mint_restart, rewards_restart) and exercised on the real app with re-opened DB; IAVL/commit durability itself is trusted.",
+    "no-panic along whole reward histories is proved per block (rewards_step_no_panic, accumulator < 2^255), not as a history theorem.",
+]
 MANIFEST = {
-    "text": "under construction",
-    "note": "under construction",
-    "technique": "Lean 4 proof + differential correspondence (model vs real Go) + regenerated facts",
+    "text": "Lean 4 theorems: (a) ecosystem mint — for every cap, per-block amount, starting counter <= cap, number of blocks, bank state and "
+            "send failure pattern: counter_n = min(c0 + n*perBlock, cap), exactly the remainder in the last block, nothing afterwards, counter "
+            "increase = supply increase (also when the send to the ecosystem pool fails), minted coins held by pool or module account; "
+            "(b) AMM depth rewards, model of the repaired EndBlocker — per block (nothing off distribution blocks, <= floor(alloc/len) in a "
+            "period's first block, <= mod*floor(alloc/len) later), per period (<= allocation), cumulative (<= sum of per-block entitlements), for "
+            "all schedules of non-overlapping periods in the envelope, all pool splits/transfer failures/burns; a decide'd witness that the "
+            "pinned tree violates the per-block and per-period clauses (F10); (c) regenerated facts closed by decide: every MintCoins / "
+            "SetMintController / AddMintAmount / DistributeDepthRewards call site, every KVStore write of x/dispensation, every reference to "
+            "MintControllerPrefix, the cap literal = 350,000,000 rowan, the dispensation module registered exactly once among the begin blockers (F22); "
+            "plus messages_create_nothing for the dispensation messages. Tied by differential execution of the real BeginBlocker, the real clp "
+            "EndBlocker, the full app with DB restarts, with the predicates judged on the implementation's observations.",
+    "note": "Defects reproduced and repaired: F10 (reward accumulator carried across a period boundary; fixes/F10.diff) and new F22 (dispensation "
+            "BeginBlocker registered twice in app.go: 450 instead of 225 rowan per block; fixes/F22.diff). Trusted: Lean kernel, hand-written "
+            "models (correspondence only), the per-pool split as environment value, syntactic call-site extractor, x/bank, module.Manager, "
+            "IAVL. Not proved: destination of rewarded coins (C01/C18), overlapping/replaced reward periods (residual observation), see unproved_statements.",
+    "technique": "Lean 4 proof (induction over block histories) + regenerated facts (decide) + differential correspondence (model vs real Go, L1 and full app with restarts)",
     "design_ref": "4/C20",
 }
